@@ -1170,6 +1170,9 @@ where
             })
             .collect::<Vec<_>>();
 
+        #[cfg(feature = "verif-hooks")]
+        verif_hooks::audit_tests(&tests);
+
         let mut results = tests
             .into_par_iter()
             .map(|test| test.run(seed, max_success, plutus_version, tracing))
@@ -1303,4 +1306,26 @@ fn is_aiken_path(path: &Path, dir: impl AsRef<Path>) -> bool {
             .to_str()
             .expect("is_aiken_path(): to_str"),
     )
+}
+
+/// Verification hook: lets the verification harness inspect the tests (and every
+/// allocation reachable from them) just before they are handed to the thread pool.
+#[cfg(feature = "verif-hooks")]
+pub mod verif_hooks {
+    use aiken_lang::test_framework::Test;
+    use std::sync::Mutex;
+
+    type Audit = Box<dyn Fn(&[Test]) + Send>;
+
+    static AUDIT: Mutex<Option<Audit>> = Mutex::new(None);
+
+    pub fn set_audit(audit: Option<Audit>) {
+        *AUDIT.lock().unwrap() = audit;
+    }
+
+    pub fn audit_tests(tests: &[Test]) {
+        if let Some(audit) = AUDIT.lock().unwrap().as_ref() {
+            audit(tests);
+        }
+    }
 }
